@@ -925,6 +925,10 @@ void conn_disconnect_clean(xmpp_conn_t *conn)
  */
 void conn_disconnect(xmpp_conn_t *conn)
 {
+    /* the application is told about a disconnect exactly once */
+    if (conn->state == XMPP_STATE_DISCONNECTED)
+        return;
+
     strophe_debug(conn->ctx, "xmpp", "Closing socket.");
     conn->state = XMPP_STATE_DISCONNECTED;
     conn->stream_negotiation_completed = 0;
